@@ -157,6 +157,7 @@ struct Case
     int vd;    // extra rotation of operand b against operand a
     int vm;    // step of the rotation between neighbouring positions (1..10; 11 is prime, so every step is a permutation)
     int al;    // Alias form: AL_NONE, AL_CA (result object IS operand a), AL_CB, AL_AB (a and b one object), AL_CAB
+    int pl;    // placement: 0 = the default address of every array; 1..4 = every array starts at an address = 8*(pl-1) modulo 32
     int reent; // re-entrancy step: number of threads that execute the case concurrently on private data (0 = ordinary case)
 };
 inline bool is_huge(const Case &c);
@@ -185,6 +186,7 @@ inline std::string casestr(const Case &c)
     t += fmt(" vp=%d vd=%d vm=%d", c.vp, c.vd, c.vm);
     if (c.al) t += fmt(" alias=%s", ALN[c.al]);
     if (c.reent) t += fmt(" reent=%d", c.reent);
+    if (c.pl) t += fmt(" pl=%d", c.pl);
     return t;
 }
 inline std::string ipname(int pat) { return pat < NIP ? std::string(IPN[pat]) : fmt("g%d", pat - NIP); }
@@ -214,6 +216,7 @@ inline bool parse_casestr(const std::string &str, Case &c)
     c.vm = (int)cu(m, "vm", 1);
     if (c.vm < 1 || c.vm >= NBV) c.vm = 1;
     c.reent = (int)cu(m, "reent", 0);
+    c.pl = (int)cu(m, "pl", 0);
     c.al = AL_NONE;
     std::string al = cs(m, "alias", "-");
     for (int j = 1; j < NAL; j++)
@@ -230,7 +233,7 @@ inline bool is_huge(const Case &c)
     return false;
 }
 inline bool is_gapword(const Case &c) { return c.ip[0] >= NIP || c.ip[1] >= NIP || c.ip[2] >= NIP; }
-inline std::string sig_suffix(const Case &c) { return std::string(c.al ? ".alias" : "") + (is_huge(c) ? ".hugestride" : "") + (is_gapword(c) ? ".idxshape" : ""); }
+inline std::string sig_suffix(const Case &c) { return std::string(c.al ? ".alias" : "") + (is_huge(c) ? ".hugestride" : "") + (is_gapword(c) ? ".idxshape" : "") + (c.pl ? ".placed" : ""); }
 
 // ---------------------------------------------------------------- one case
 struct Counters
@@ -379,8 +382,9 @@ inline std::string run_case(const Case &c, Counters *cnt, std::string *sample = 
         if (OVL_PRIVATE)
         {
             sl[q].len = extq[q];
-            sl[q].alloc = (u64 *)malloc(extq[q] * sizeof(u64));
+            sl[q].alloc = (u64 *)malloc((extq[q] + 4) * sizeof(u64));
             sl[q].base = sl[q].alloc;
+            if (c.pl) while ((((uintptr_t)sl[q].base) >> 3) % 4 != (uintptr_t)(c.pl - 1)) sl[q].base++; // the block is 4 words longer than the extent
         }
         else
         {
@@ -389,6 +393,7 @@ inline std::string run_case(const Case &c, Counters *cnt, std::string *sample = 
             if (len > BIGN) return "framework\tconfiguration exceeds the arena";
             sl[q].len = len;
             sl[q].base = g_big[q] - len;
+            if (c.pl) while ((((uintptr_t)sl[q].base) >> 3) % 4 != (uintptr_t)(c.pl - 1)) sl[q].base--; // up to three sentinel words of slack before the guard page
         }
         sl[q].rng.push_back({0, sl[q].len});
         A.ptr[q] = sl[q].base;
@@ -500,6 +505,7 @@ inline std::string run_case(const Case &c, Counters *cnt, std::string *sample = 
         const Operand &o = opnd(s, q);
         if (!has_mem(o) || root[q] != q) continue;
         ASAN_POISON_MEMORY_REGION(sl[q].base, sl[q].len * sizeof(u64));
+        if (sl[q].alloc) ASAN_POISON_MEMORY_REGION(sl[q].alloc, (sl[q].len + 4) * sizeof(u64)); // the placement slack as well
     }
     for (int q = 0; q < 3; q++) // designated positions of every slot (slots that share an object may designate different ones)
     {
@@ -516,7 +522,7 @@ inline std::string run_case(const Case &c, Counters *cnt, std::string *sample = 
 
 #if OVL_EXACT
     for (int q = 0; q < 3; q++)
-        if (has_mem(opnd(s, q))) ASAN_UNPOISON_MEMORY_REGION(sl[q].base, sl[q].len * sizeof(u64));
+        if (has_mem(opnd(s, q))) { ASAN_UNPOISON_MEMORY_REGION(sl[q].base, sl[q].len * sizeof(u64)); if (sl[q].alloc && root[q] == q) ASAN_UNPOISON_MEMORY_REGION(sl[q].alloc, (sl[q].len + 4) * sizeof(u64)); }
 #endif
 
     // ---- judge
@@ -775,6 +781,7 @@ inline void run_overload(int si, bool thorough, const char *prop)
                         c.vm = vm;
                         c.al = al;
                         c.reent = 0;
+                        c.pl = 0;
                         std::string cs_ = casestr(c);
                         if (g_cur) { strncpy(g_cur, cs_.c_str(), 4000); g_cur[4000] = 0; }
                         std::string smp;
@@ -904,6 +911,53 @@ done:
     rep().stat(std::string(pre) + "evaluations", cnt.evals);
     if (!OVL_EXACT) rep().stat("distinct_nontrivial", cnt.cases);
     rep().stat(std::string(pre) + "idxshape_states", cnt.cases);
+    rep().flush();
+}
+
+// ---------------------------------------------------------------- placements
+// Every overload with every memory operand starting at each of the four addresses 0, 8, 16, 24 modulo 32 (an Element needs
+// 8-byte alignment only; vector code may take an aligned fast path or use an instruction that needs alignment): unit / stride 5,
+// identity / scattered index lists, tag pass and one boundary pass.
+inline void run_place(int si, const char *prop)
+{
+    const Spec &s = ovl_specs[si];
+    bool anymem = false;
+    for (int q = 0; q < 3; q++) anymem |= has_mem(opnd(s, q));
+    if (!anymem) return;
+    Counters cnt;
+    long long nv = 0;
+    for (int pl = 1; pl <= 4; pl++)
+        for (int geo = 0; geo < 2; geo++)
+            for (int vp : {0, 3})
+            {
+                Case c;
+                memset(&c, 0, sizeof c);
+                c.si = si;
+                c.vm = 1;
+                c.vp = vp;
+                c.pl = pl;
+                for (int q = 0; q < 3; q++)
+                {
+                    const Operand &o = opnd(s, q);
+                    c.s[q] = o.carrier == C_ARR_STRIDE ? (geo ? 5 : (u64)o.kind) : 0;
+                    c.ip[q] = o.carrier == C_ARR_IDX ? (geo ? IP_SCAT : IP_IDENT) : IP_IDENT;
+                }
+                std::string cs_ = casestr(c);
+                if (g_cur) { strncpy(g_cur, cs_.c_str(), 4000); g_cur[4000] = 0; }
+                std::string f = run_case(c, &cnt);
+                if (f.empty()) continue;
+                size_t t = f.find('\t');
+                rep().viol(std::string(prop) + "." + f.substr(0, t) + "." + s.id + sig_suffix(c), cs_, fmt("%s(%s) %s:%d: ", s.name, s.decl, s.file, s.line) + f.substr(t + 1));
+                if (++nv >= 8) goto done;
+            }
+done:
+    if (g_cur) g_cur[0] = 0;
+    const char *pre = OVL_EXACT ? "asan_" : "";
+    rep().stat(std::string(pre) + "states", cnt.cases);
+    rep().stat(std::string(pre) + "transitions", cnt.cases);
+    rep().stat(std::string(pre) + "evaluations", cnt.evals);
+    if (!OVL_EXACT) rep().stat("distinct_nontrivial", cnt.cases);
+    rep().stat(std::string(pre) + "placement_states", cnt.cases);
     rep().flush();
 }
 
@@ -1171,6 +1225,15 @@ inline int ovl_main(int argc, char **argv)
             report_abnormal(r, si, prop, g_cur);
             rep().stat("overloads_aborted", 1);
             rep().flush(); // before the next child is forked (it would inherit and re-print these counters)
+        }
+        {
+            g_cur[0] = 0;
+            Iso h = isolated([&]() { run_place(si, prop); }, 300);
+            if (h.kind != 0)
+            {
+                report_abnormal(h, si, prop, g_cur);
+                rep().flush();
+            }
         }
         {
             g_cur[0] = 0;
